@@ -180,6 +180,8 @@ def scn_floor(c, positive, layout, nonspatial=True, dimcoord=False, second=None,
     loc = tuple(point[d] for d in locdims)
     exists, K, inst = _deepest(c, dep, sigma, col, sizes, loc)
     before = {k: (v.dims, v.arr, dict(v.attrs)) for k, v in ds._vars.items()}
+    from pyvc.api import check_unmodified, snapshot
+    snap = snapshot(ds)
     kw = {'non_spatial_variables': ['time']} if nonspatial else {}
     # the depth coordinates may be given as any iterable (the documented type): a list, a tuple, or a one-shot iterator / generator
     arg = {'list': lambda: list(names), 'tuple': lambda: tuple(names), 'iterator': lambda: iter(list(names)),
@@ -211,6 +213,7 @@ def scn_floor(c, positive, layout, nonspatial=True, dimcoord=False, second=None,
         g, w = vo.arr.fn(i), a0.fn(i)
         c.check(f'{k!r} (no depth dimension) keeps its values', g.same_bits(w) if isinstance(g, SFloat) else s_eq(g, w))
         c.check(f'{k!r} stays a {"coordinate" if k in ds._coord_names else "data variable"}', (k in out._coord_names) == (k in ds._coord_names))
+    check_unmodified(c, ds, snap, 'the dataset given to ocean_floor (values included: a second call sees the same dataset)')
     c.check('the input dataset is not modified', all(ds._vars[k].arr is a and ds._vars[k].dims == d and ds._vars[k].attrs == at for k, (d, a, at) in before.items()) and list(ds._vars) == list(before))
     # ---- the floor values ----------------------------------------------------------------------------------------------
     for name in ('temp', 'salt'):
